@@ -27,6 +27,7 @@ def c01(ctx):
     _g(ctx, split.run)
     _g(ctx, missempty.run, empty=False)
     _g(ctx, verify.run, kinds=['set', 'oc', 'count'], opmap=False, simtable=False)
+    _g(ctx, effect.run, mutations=False, globals_=True, labels=False)
 
 
 def c02(ctx):
@@ -34,7 +35,7 @@ def c02(ctx):
     _g(ctx, shape.run, builders=True, cross=False, ids=False)
     _g(ctx, sides.run)
     _g(ctx, wire.run, ordering=False, same=False, measure=True)
-    _g(ctx, cand.run, slices=False, provenance=False, window=False, prune=False, consume=False)
+    _g(ctx, cand.run, slices=False, provenance=False, window=False, prune=False, consume=False, early=False)
     _g(ctx, once.run, which=['row_id'], caches=True)
     _g(ctx, split.run)
 
@@ -47,17 +48,21 @@ def c03(ctx):
     _g(ctx, cand.run, window=False, prune=False, consume=False)
     _g(ctx, once.run, which=['row_id', 'order_idx', 'table_index'])
     _g(ctx, order.run)
+    _g(ctx, split.run)
+    _g(ctx, missempty.run, empty=False)
+    _g(ctx, effect.run, mutations=False, globals_=True, labels=False)
 
 
 def c04(ctx):
     _g(ctx, form.run, ALL5, 'safe')
     _g(ctx, dt.run, pairs=True)
-    _g(ctx, cand.run)
+    _g(ctx, cand.run, sizes=True)
     _g(ctx, order.run)
     _g(ctx, mask.run, candset=True)
-    _g(ctx, once.run, extrema=True, pairpos=True, appends=True)
+    _g(ctx, once.run, extrema=True, pairpos=True, appends='filter')
     _g(ctx, suffix.run)
     _g(ctx, split.run)
+    _g(ctx, effect.run, mutations=False, globals_=True, labels=False)
 
 
 def c05(ctx):
@@ -66,7 +71,7 @@ def c05(ctx):
     _g(ctx, shape.run, builders=True, cross=False, ids=False)
     _g(ctx, sides.run)
     _g(ctx, split.run)
-    _g(ctx, once.run, which=[], appends=True)
+    _g(ctx, once.run, which=[], appends='filter')
     _g(ctx, missempty.run, empty=False)
     _g(ctx, effect.run, globals_=False, labels=True)
 
@@ -77,7 +82,7 @@ def c06(ctx):
     _g(ctx, verify.run, kinds=['count'], simtable=False)
     _g(ctx, cand.run, slices=False, window=False, prune=False, consume=False)
     _g(ctx, split.run)
-    _g(ctx, once.run, which=['InvertedIndex.build'], appends=True, caches=True)
+    _g(ctx, once.run, which=['InvertedIndex.build'], appends='filter', caches=True)
     _g(ctx, sides.run)
 
 
@@ -107,6 +112,7 @@ def c10(ctx):
     _g(ctx, order.run)
     _g(ctx, effect.run, mutations=False, globals_=True, labels=True)
     _g(ctx, wire.run, ordering=True, same=False, rows=False, arrays=True, measure=False)
+    _g(ctx, once.run, which=[], extrema=True)
 
 
 def c11(ctx):
@@ -130,18 +136,20 @@ def c13(ctx):
     _g(ctx, cand.run, unique=True, provenance=False)
     _g(ctx, order.run)
     _g(ctx, wire.run, rows=False, arrays=False)
+    _g(ctx, effect.run, mutations=False, globals_=True, labels=False)
 
 
 def c14(ctx):
     _g(ctx, form.run, ['COSINE', 'DICE', 'JACCARD', 'EDIT_DISTANCE'], 'tight',
        funcs=['get_size_lower_bound', 'get_size_upper_bound'])
     _g(ctx, dt.run, pairs=True)
-    _g(ctx, cand.run, slices=True, unique=False, provenance=True, window=True, prune=True, consume=False)
+    _g(ctx, cand.run, slices=True, unique=False, provenance=True, window=True, prune=True, consume=False, early=False, sizes=True)
     # Position subset of Prefix and of Size presupposes one shared token order and aligned indexes
     _g(ctx, order.run)
     _g(ctx, once.run, extrema=True)
     _g(ctx, wire.run, ordering=True, same=True, rows=False, arrays=False, measure=False)
     _g(ctx, missempty.run, miss=False)
+    _g(ctx, effect.run, mutations=False, globals_=True, labels=False)
 
 
 def c15(ctx):
@@ -162,7 +170,7 @@ def c16(ctx):
 
 def c17(ctx):
     _g(ctx, prof.run, div=True)
-    _g(ctx, once.run, which=[], appends=True)
+    _g(ctx, once.run, which=[], appends='profiler')
     _g(ctx, valid.run, only=['profile_table_for_join'])
 
 
